@@ -281,10 +281,10 @@ fn exchange_primitives(rep: &mut Report) {
                         Err(_) => false,
                         Ok(Ok(())) => {
                             in_range
-                                && (0..l1).all(|i| a.bits[i] == if i == idx { b0.bits[i] } else { a0.bits[i] })
-                                && (0..l2).all(|i| b.bits[i] == if i == idx { a0.bits[i] } else { b0.bits[i] })
                                 && a.bits.len() == l1
                                 && b.bits.len() == l2
+                                && (0..l1).all(|i| a.bits[i] == if i == idx { b0.bits[i] } else { a0.bits[i] })
+                                && (0..l2).all(|i| b.bits[i] == if i == idx { a0.bits[i] } else { b0.bits[i] })
                         }
                         Ok(Err(_)) => !in_range && a == a0 && b == b0,
                     };
@@ -318,6 +318,8 @@ fn exchange_primitives(rep: &mut Report) {
                             Err(_) => false,
                             Ok(Ok(())) => {
                                 in_range
+                                    && a.bits.len() == l1
+                                    && b.bits.len() == l2
                                     && (0..l1).all(|i| a.bits[i] == if (start..end).contains(&i) { b0.bits[i] } else { a0.bits[i] })
                                     && (0..l2).all(|i| b.bits[i] == if (start..end).contains(&i) { a0.bits[i] } else { b0.bits[i] })
                             }
